@@ -1099,6 +1099,50 @@ theorem lifetime_invariant_repaired (ops : List IOp) : LifetimeInv (runV ops) :=
   | nil => intro s hs; exact hs
   | cons op l ih => intro s hs; exact ih _ (lifetime_inv_step_repaired s op hs)
 
+/-- every operation of the repaired machine is a sequence of `OpStep`s (the recursive ones through `partialOp`:
+    they are sequences of primitive steps) -/
+theorem applyOpV_opSteps (s : State) (op : IOp) : OpSteps s (applyOpV s op) := by
+  have henv : applyOpV s op = applyOp s op → OpSteps s (applyOpV s op) := fun e => by
+    rw [e]; exact applyOp_opSteps s op
+  cases op with
+  | abort n u d =>
+    simp only [applyOpV]
+    cases h : abortTopV n s u d with
+    | error e => exact .refl _
+    | ok s' => exact .single (.partialOp (abortTopV_steps n s u d s' h))
+  | finish n u d =>
+    simp only [applyOpV]
+    cases h : finishFlowV n s u d with
+    | error e => exact .refl _
+    | ok s' => exact .single (.partialOp (finishFlowV_steps n s u d s' h))
+  | endScope n u nm =>
+    simp only [applyOpV]
+    cases h : endScopeV n s u nm with
+    | error e => exact .refl _
+    | ok s' => exact .single (.partialOp (endScopeV_steps n s u nm s' h))
+  | startChild c fid p k => exact henv rfl
+  | reactivate fid known act hasInst source pm => exact henv rfl
+  | status u st => exact henv rfl
+  | newAction u a => exact henv rfl
+  | startAction a => exact henv rfl
+  | coWin loser a b => exact henv rfl
+  | event e => exact henv rfl
+  | label u => exact henv rfl
+  | noRestart u => exact henv rfl
+  | frame u heads scopes => exact henv rfl
+
+/-- **`stop_at_most_once` for the repaired interpreter**: at most one `Stop` per action in every state the machine
+    with the repaired recursion (and the repaired co-win) can reach -/
+theorem stop_at_most_once_repaired (ops : List IOp) (a : Nat) : stops a (runV ops).out ≤ 1 := by
+  have h : OpSteps initState (runV ops) := by
+    unfold runV
+    suffices h : ∀ (l : List IOp) (s : State), OpSteps s (l.foldl applyOpV s) from h ops _
+    intro l
+    induction l with
+    | nil => intro s; exact .refl _
+    | cons op l ih => intro s; exact (applyOpV_opSteps s op).trans (ih _)
+  exact stop_at_most_once initState (runV ops) (fun _ => rfl) h a
+
 /-- in every reachable state of the repaired machine every outermost `_abort_flow` / `_finish_flow` terminates with
     fuel `2·#instances + 1` (the domain hypothesis of `abort_repaired_fuel_sufficient` is part of the invariant) -/
 theorem repaired_calls_terminate (ops : List IOp) (n u : Nat) (d : Bool) (hn : 2 * (runV ops).order.length < n) :
